@@ -162,7 +162,10 @@ class Relay(object):
                 self.send_header("Content-Type", "application/json-rpc")
                 self.send_header("Content-Length", str(len(reply)))
                 self.end_headers()
-                self.wfile.write(reply)
+                try:
+                    self.wfile.write(reply)
+                except (BrokenPipeError, ConnectionResetError):
+                    pass  # the client went away without reading the reply (it had already failed): nothing to report
 
             def log_message(self, *args):
                 pass
